@@ -170,8 +170,8 @@ def make_text(table, toks, n, gaps):
 def c05_tokens3(toks: Tuple[int, int, int], n: int, gaps: int) -> bool:
     """
     pre: pinned(n=n, t0=toks[0], gaps=gaps)
-    pre: 1 <= n <= 3 and 0 <= gaps < 4
-    pre: all(0 <= toks[i] < NTOK3 and (i < n or toks[i] == 0) for i in range(3))
+    pre: ((1 <= n) & (n <= 3)) & ((0 <= gaps) & (gaps < 4))
+    pre: enc.word_ranges(toks, n, NTOK3)
     pre: (n >= 3 or gaps < 2) and (n >= 2 or gaps == 0)
     post: _
     """
@@ -188,7 +188,7 @@ def c05_tokens4(toks: Tuple[int, int, int, int], gaps: int) -> bool:
     """
     pre: pinned(t0=toks[0], t1=toks[1], gaps=gaps)
     pre: 0 <= gaps < 8
-    pre: all(0 <= toks[i] < 8 for i in range(4))
+    pre: enc.in_range(toks, 8)
     post: _
     """
     raw = (toks, gaps)
@@ -205,8 +205,8 @@ TOK_W = ["a", "b", "|", "*", "(", ")"]
 def c05_wrapped(toks: Tuple[int, int, int], n: int, depth: int, prefix: int, suffix: int) -> bool:
     """
     pre: pinned(n=n, depth=depth, prefix=prefix, suffix=suffix, t0=toks[0])
-    pre: 1 <= n <= 3 and 1 <= depth <= 3 and 0 <= prefix < 3 and 0 <= suffix < 4
-    pre: all(0 <= toks[i] < 6 and (i < n or toks[i] == 0) for i in range(3))
+    pre: ((1 <= n) & (n <= 3)) & ((1 <= depth) & (depth <= 3)) & ((0 <= prefix) & (prefix < 3)) & ((0 <= suffix) & (suffix < 4))
+    pre: enc.word_ranges(toks, n, 6)
     post: _
     """
     raw = (toks, n, depth, prefix, suffix)
@@ -245,9 +245,9 @@ def _comb_oracle(args, obs):
 def c05_combinators(ta: Tuple[int, int, int], na: int, tb: Tuple[int, int, int], nb: int) -> bool:
     """
     pre: pinned(na=na, nb=nb, a0=ta[0], b0=tb[0], a1=ta[1])
-    pre: 1 <= na <= 3 and 1 <= nb <= 3
-    pre: all(0 <= ta[i] < 8 and (i < na or ta[i] == 0) for i in range(3))
-    pre: all(0 <= tb[i] < 8 and (i < nb or tb[i] == 0) for i in range(3))
+    pre: ((1 <= na) & (na <= 3)) & ((1 <= nb) & (nb <= 3))
+    pre: enc.word_ranges(ta, na, 8)
+    pre: enc.word_ranges(tb, nb, 8)
     post: _
     """
     raw = (ta, na, tb, nb)
